@@ -460,6 +460,8 @@ def main (args : List String) : IO Unit :=
     match (grow.getD old [])[len]? with
     | some c => c
     | none => capTab 3 len
-  let d0 : Nstd.Rc.DSt := { Nstd.Rc.init0 with st := { Nstd.Rc.init0.st with capTab := capTab, growTab := growTab,
-    assignEmptyStatic := flags.getD 0 '0' == '1', assignSameSkip := flags.getD 1 '0' == '1' } }
+  let es : Bool := flags.getD 0 '0' == '1'
+  let ss : Bool := flags.getD 1 '0' == '1'
+  let st0 : Nstd.Rc.St := { Nstd.Rc.init0.st with capTab := capTab, growTab := growTab, assignEmptyStatic := es, assignSameSkip := ss }
+  let d0 : Nstd.Rc.DSt := { Nstd.Rc.init0 with st := st0 }
   Nstd.Common.ioLoop d0 Nstd.Rc.stepLine
